@@ -276,6 +276,25 @@ def depext(n: size, x: f32[n + 1]):
         t[i] = x[i]
         x[i + 1] = t[i]
 """)
+S("alloc/dep_extent2", "alloc", """
+@proc
+def depext2(n: size, x: f32[n + 1, n + 1]):
+    for i in seq(0, n):
+        for j in seq(0, n):
+            t: f32[j + 1]
+            t[j] = x[i, j]
+            x[i, j + 1] = t[j]
+""")
+S("alloc/stencil", "alloc", """
+@proc
+def stencil(n: size, x: f32[n], y: f32[n]):
+    assert n >= 2
+    for i in seq(0, n):
+        if 0 < i and i < n - 1:
+            y[i] = x[i - 1] + x[i] + x[i + 1]
+    for i in seq(1, n - 1):
+        y[i] += x[i - 1] + x[i + 1]
+""")
 S("alloc/unroll_buf", "alloc", """
 @proc
 def ubuf(n: size, x: f32[n, 2], y: f32[n]):
@@ -600,6 +619,28 @@ def glift(n: size, m: size, x: f32[n, m], b: bool):
         x[0, 0] = 4.0
 """)
 
+S("guard/else2", "guard", """
+@proc
+def gelse2(n: size, x: f32[n + 4], y: f32[n + 4]):
+    for i in seq(0, n):
+        if i < 1:
+            x[0] = 1.0
+            x[1] = 2.0
+        else:
+            x[2] = 3.0
+            x[3] = 4.0
+            t: f32
+            t = y[i]
+            x[i] = t
+    if n > 2:
+        y[0] = 1.0
+        y[1] = 2.0
+    else:
+        y[2] = 3.0
+        pass
+        y[3] = 4.0
+""")
+
 # ------------------------------------------------------------------ expr
 S("expr/alg", "expr", """
 @proc
@@ -758,6 +799,26 @@ def dtile(n: size, x: f32[n], y: f32[n]):
 """)
 
 # ------------------------------------------------------------------ extern
+S("expr/prec", "expr", """
+@proc
+def eprec(n: size, x: f32[4 * n + 8], y: f32[n + 1], a: f32, b: f32, k: index):
+    assert k >= 0
+    assert k <= 1
+    for i in seq(0, n):
+        y[i] = a - (b - x[i])
+        y[i] = (a - b) - x[i]
+        y[i] = a / (b / x[i])
+        y[i] = (a / b) / x[i]
+        y[i] = a * (b + x[i]) - -a
+        y[i] = -(a + b) * x[i]
+        x[i - (k - 1)] = 1.0
+        x[(i + 1) * 2 - k] = 2.0
+        x[i / 2 % 3] = 3.0
+        x[(i % 4) / 2 + (n - (i - k))] = 4.0
+        x[2 * (i + k) + 1] = -1.0 - a
+        if (i + 1) / 2 == 1 and (i < 3 or k == 0):
+            y[i] = 5.0
+""")
 S("expr/extern", "expr", """
 @proc
 def eext(n: size, x: f32[n], y: f32[n]):
